@@ -709,6 +709,8 @@ class SymEngine:
                 el = ("iter", z, "c")
                 op = {"eq": "Eq", "ne": "NotEq", "lt": "Lt", "le": "LtE", "gt": "Gt", "ge": "GtE"}[args[0][2]]
                 return ("gen", self._cmp(getattr(ast, op)(), ("sub", el, C(0)), ("sub", el, C(1))), (z,), ())
+            if tg.name == "collections.deque" and len(args) == 1 and not kws and args[0][0] in ("list", "tuple"):
+                return ("list", args[0][1])  # a deque built from a list display: append / extend / pop() behave like the list's
             if tg.name == "list" and len(args) == 1 and not kws and args[0][0] == "gen":
                 return ("listcomp",) + args[0][1:]  # list(<generator expression>) is the list comprehension
             return ("call", "ext:" + tg.name, args, kws)
